@@ -225,9 +225,22 @@ void Stats::processMsg(int sockfd) {
   }
   root["body"] = body;
   std::string ret = root.toStyledString();
-  if (Util::writeFull(sockfd, ret.c_str(), strlen(ret.c_str())) < 0) {
-    OLOG << "Stats server error: writing to socket: "
-         << ::strerror_r(errno, err_buf.data(), err_buf.size());
+  // send() with MSG_NOSIGNAL: a client that has already gone away must yield
+  // EPIPE here, not a SIGPIPE that kills the daemon
+  const char* reply = ret.c_str();
+  size_t remaining = ret.size();
+  while (remaining > 0) {
+    ssize_t sent = ::send(sockfd, reply, remaining, MSG_NOSIGNAL);
+    if (sent < 0) {
+      if (errno == EINTR) {
+        continue;
+      }
+      OLOG << "Stats server error: writing to socket: "
+           << ::strerror_r(errno, err_buf.data(), err_buf.size());
+      break;
+    }
+    reply += sent;
+    remaining -= sent;
   }
 }
 
